@@ -334,8 +334,10 @@ def run(pid, tier, replay_file=None):
     else:
         states, info = df.stage1(tier)
         if tier == "quick":
-            cap = {"C17": 800, "C18": 4000, "C19": 1200}[pid]
-            states = [s for s in states if s.get("src") != "sim"] + \
+            cap = {"C17": 500, "C18": 3000, "C19": 500}[pid]
+            step = {"C17": 2, "C18": 1, "C19": 2}[pid]
+            states = [s for s in states if s.get("src") == "bfs"][::step] + \
+                     [s for s in states if s.get("src") == "seed"] + \
                      [s for s in states if s.get("src") == "sim"][:cap]
     common.use_repo()
     fn = {"C17": replay_c17, "C18": replay_c18, "C19": replay_c19}[pid]
